@@ -1,3 +1,4 @@
 import Bubus.Model.Basic
 import Bubus.Model.Pure
 import Bubus.Model.Step
+import Bubus.Spec.Monitors
